@@ -176,6 +176,20 @@ func c14Record(tier string, seed int64, emit func(interface{})) {
 			seq.Meta.RegionStart, seq.Meta.RegionEnd = 0, 0
 			rec["rend"] = 1
 		}
+		if rng.Intn(5) == 0 && seq.Meta.RegionEnd != 0 {
+			// the region of interest is a part of the stored sequence: its bounds are data like any other (the end
+			// often on a multiple of the line width)
+			rs := 1 + rng.Intn(ln)
+			re := rs + rng.Intn(ln-rs+1)
+			if ln > 70 && rng.Intn(2) == 0 {
+				re = 70 * (1 + rng.Intn(ln/70))
+				if rs > re {
+					rs = 1 + rng.Intn(re)
+				}
+			}
+			seq.Meta.RegionStart, seq.Meta.RegionEnd = rs, re
+			rec["rstart"], rec["rend"] = rs, re
+		}
 		feats := []map[string]interface{}{}
 		for j := 0; j < rng.Intn(31); j++ {
 			s := 1 + rng.Intn(ln)
